@@ -34,3 +34,72 @@ V('c18-benign-rename', 'C18', 'silent', (E, '''        let newer = new > *self;
             return true;
         }
         false'''))
+
+C = 'src/cache.rs'
+L = 'src/local_cache.rs'
+U = 'src/utils/private.rs'
+A = 'src/anycache.rs'
+
+# ---- C01
+V('c01-insert-replaces', 'C01', 'C01.R1', (C, '''        let entry = shard.entry(key).or_insert(entry);
+        unsafe { entry.inner().extend_lifetime() }''', '''        shard.insert(key.clone(), entry);
+        let entry = shard.get(&key).unwrap();
+        unsafe { entry.inner().extend_lifetime() }'''))
+V('c01-local-insert-replaces', 'C01', 'C01.R1', (L, '''        let entry = map.entry(key).or_insert(entry);''', '''        map.remove(&key);
+        let entry = map.entry(key).or_insert(entry);'''))
+V('c01-shared-evict', 'C01', 'C01.R1', (C, '''    fn clear(&mut self) {''', '''    #[allow(dead_code)]
+    pub(crate) fn evict(&self, id: &str, type_id: TypeId) {
+        let key = BorrowedKey::new_with(id, type_id);
+        self.get_shard(key).0.write().remove(&key as &dyn Key);
+    }
+
+    fn clear(&mut self) {'''))
+V('c01-hash-only-id', 'C01', 'C01.R4', (U, '''        self.type_id().hash(h);
+        self.id().hash(h);''', '''        self.id().hash(h);'''))
+V('c01-hash-reordered', 'C01', 'C01.R4', (U, '''pub(crate) struct OwnedKey {
+    pub type_id: TypeId,
+    pub id: SharedString,
+}''', '''pub(crate) struct OwnedKey {
+    pub id: SharedString,
+    pub type_id: TypeId,
+}'''))
+V('c01-eq-drops-type', 'C01', 'C01.R4', (U, '''        self.type_id() == other.type_id() && self.id() == other.id()''', '''        self.id() == other.id()'''))
+V('c01-shard-mut-differs', 'C01', 'C01.R7', (C, '''    fn get_shard_mut(&mut self, key: BorrowedKey) -> &mut Shard {
+        use std::hash::*;
+
+        let mut hasher = self.hash_builder.build_hasher();
+        key.hash(&mut hasher);
+        let id = (hasher.finish() as usize) & (self.shards.len() - 1);''', '''    fn get_shard_mut(&mut self, key: BorrowedKey) -> &mut Shard {
+        use std::hash::*;
+
+        let mut hasher = self.hash_builder.build_hasher();
+        key.id().hash(&mut hasher);
+        let id = (hasher.finish() as usize) & (self.shards.len() - 1);'''))
+V('c01-return-own-entry', 'C01', 'C01.R2', (C, '''        let key = OwnedKey::new_with(entry.id().clone(), entry.type_id());
+        let shard = &mut *self.get_shard(key.borrow()).0.write();
+        let entry = shard.entry(key).or_insert(entry);
+        unsafe { entry.inner().extend_lifetime() }''', '''        let key = OwnedKey::new_with(entry.id().clone(), entry.type_id());
+        let ptr = unsafe { entry.inner().extend_lifetime() };
+        let shard = &mut *self.get_shard(key.borrow()).0.write();
+        shard.entry(key).or_insert(entry);
+        ptr'''))
+V('c01-benign-helper', 'C01', 'silent', (C, '''    fn clear(&mut self) {
+        for shard in &mut *self.shards {
+            shard.0.get_mut().clear();
+        }
+    }''', '''    fn clear(&mut self) {
+        for shard in self.shards.iter_mut() {
+            let map = shard.0.get_mut();
+            map.clear();
+        }
+    }
+
+    #[allow(dead_code)]
+    pub(crate) fn len(&self) -> usize {
+        self.shards.iter().map(|s| s.0.read().len()).sum()
+    }'''))
+V('c01-benign-match', 'C01', 'silent', (C, '''        let entry = shard.get(&key as &dyn Key)?;
+        unsafe { Some(entry.inner().extend_lifetime()) }''', '''        match shard.get(&key as &dyn Key) {
+            Some(entry) => unsafe { Some(entry.inner().extend_lifetime()) },
+            None => None,
+        }'''))
